@@ -535,13 +535,42 @@ pub struct ShapeEntry {
     pub parse: fn(&[&'static UnixStr]) -> Outcome,
 }
 
+// ------------------------------------------------------------------------------------ 16 Cased
+
+/// Long names written with an underscore / an upper-case letter in the attribute: the declared
+/// option (what the help text and every error message say) is the lower-case, dashed spelling;
+/// the same holds for a short name written in upper case.
+#[derive(ArgParse)]
+#[cli(help_path = "c20, cased")]
+pub struct Cased {
+    #[cli(short = "r", long = "req_field")]
+    pub req_field: i32,
+    #[cli(short = "I", long = "Include")]
+    pub include: Option<String>,
+    #[cli(long = "dry_run")]
+    pub dry_run: bool,
+}
+pub static CASED: Spec = Spec {
+    name: "Cased",
+    opts: &[o(Some("r"), Some("req-field"), Kind::Req, Ty::I32), o(Some("i"), Some("include"), Kind::Opt, Ty::String), o(None, Some("dry-run"), Kind::Flag, Ty::Str)],
+    pos: &[],
+    sub: None,
+    help: help_of::<Cased>,
+};
+impl Shape for Cased {
+    const SPEC: &'static Spec = &CASED;
+    fn to_model(&self) -> Model {
+        Model { opts: vec![one(num(self.req_field as i64)), opt(self.include.as_ref().map(|s| b(s.as_bytes()))), flag(self.dry_run)], pos: vec![], sub: None }
+    }
+}
+
 macro_rules! entry {
     ($t:ty, $class:literal) => {
         ShapeEntry { spec: <$t as Shape>::SPEC, class: $class, parse: run_shape::<$t> }
     };
 }
 
-pub static SHAPES: [ShapeEntry; 15] = [
+pub static SHAPES: [ShapeEntry; 16] = [
     entry!(ReqOpt, "shape-ReqOpt"),
     entry!(Aliases, "shape-Aliases"),
     entry!(Flags, "shape-Flags"),
@@ -557,6 +586,7 @@ pub static SHAPES: [ShapeEntry; 15] = [
     entry!(WithSub, "shape-WithSub"),
     entry!(WithOptSub, "shape-WithOptSub"),
     entry!(ReqWithSub, "shape-ReqWithSub"),
+    entry!(Cased, "shape-Cased"),
 ];
 
 pub fn shape_by_name(name: &str) -> Option<&'static ShapeEntry> {
